@@ -101,9 +101,47 @@ func copies() string {
 	return fmt.Sprint(t.a, u.a, v.a, v.b, v.c, w.a, w.b, arr, q.c, ";")
 }
 
+// ifInits exercises if statements with init clauses: the instrumenter puts a
+// yield between the init statement and the condition.
+func ifInits(n int) string {
+	out := ""
+	x := n
+	if x := x + 1; x > 2 { // shadows the outer x inside the statement only
+		out += fmt.Sprint("a", x)
+	} else if y, ok := table["a"]; ok && y == x-1 {
+		out += fmt.Sprint("b", x, y)
+	} else if f := func() int { x++; return x }; f() > 0 { // init holding a function literal
+		out += fmt.Sprint("c", x, y)
+	} else {
+		out += fmt.Sprint("d", x, y)
+	}
+	out += fmt.Sprint(x) // the outer x again
+	var err error
+	if err = errors.New("e"); err != nil {
+		out += err.Error()
+	}
+	if mu.Lock(); n >= 0 { // expression statement as init
+		mu.Unlock()
+	}
+lbl:
+	if n++; n < 3 {
+		goto lbl
+	}
+	for i := 0; i < 2; i++ {
+		if c := sharedTriple; c.a == 1 {
+			out += "t"
+			continue
+		} else if i++; i > 5 {
+			break
+		}
+		out += "u"
+	}
+	return out + fmt.Sprint(n, ";")
+}
+
 // Run drives everything and returns a digest.
 func Run() string {
-	res := copies()
+	res := copies() + ifInits(0) + ifInits(1) + ifInits(2)
 outer:
 	for i := 0; i < 4; i++ {
 		for j := 0; j < 4; j++ {
